@@ -29,6 +29,7 @@ func newNamespace(namespace string) (sp *Namespace)
   flag allocates
   ensures sp != nil && fresh(sp) && sp.namespace == namespace
   ensures a-new-namespace-has-no-pipelines: forall n string :: !pl(sp, n)
+  ensures a-new-namespace-has-no-traffic-gates: forall n string :: !tg(sp, n)
 
 // a namespace is dropped only when it holds neither a traffic gate nor a pipeline any more
 pred anyIn(m int) := exists t, k int :: smHas[m][t][k]
@@ -47,6 +48,7 @@ func (tc *TrafficController) ApplyPipeline(namespace string, entity *supervisor.
   flag frame=unchecked
   requires tc != nil && spacesOK(tc) && entity != nil && entity.spec != nil && entity.spec.meta != nil
   requires the-new-entity-is-not-live-anywhere: forall ns, n string :: (ns in tc.namespaces) && pl(tc.namespaces[ns], n) ==> plVal(tc.namespaces[ns], n) != ref(entity)
+  modifies smHas, smVal, smTyp, inits, inherits, inhPrev, closes, gName, gSpace, gHad, gPrev, gPublished, gPublishedBuilt, gBase, entries(tc.namespaces)
   ensures empty-namespace-is-refused-and-changes-nothing: namespace == "" ==> err != nil && smHas == old(smHas) && smVal == old(smVal) && inits == old(inits) && inherits == old(inherits) && closes == old(closes)
   ensures unchanged-spec-is-a-no-op: err == nil && gHad && ptr(gPrev, "*supervisor.ObjectEntity").spec.sid == entity.spec.sid ==> res == ptr(gPrev, "*supervisor.ObjectEntity") && smHas == old(smHas) && smVal == old(smVal) && inits == old(inits) && inherits == old(inherits) && closes == old(closes)
   ensures a-new-name-is-initialised-once-and-then-published: err == nil && !gHad ==> res == entity && inits == old(store(inits, ref(entity), inits[ref(entity)] + 1)) && inherits == old(inherits) && pl(ptr(gSpace, "*Namespace"), gName) && plVal(ptr(gSpace, "*Namespace"), gName) == ref(entity)
@@ -68,6 +70,8 @@ func (tc *TrafficController) DeletePipeline(namespace string, name string) (err 
   flag allocates
   flag frame=unchecked
   requires tc != nil && spacesOK(tc)
+  modifies smHas, smVal, smTyp, inits, inherits, inhPrev, closes, gName, gSpace, gHad, gPrev, gPublished, gPublishedBuilt, gBase, entries(tc.namespaces)
+  ensures the-registry-stays-well-formed: old(spacesOK(tc) && gatesOK(tc)) ==> spacesOK(tc) && gatesOK(tc)
   ensures missing-namespace-or-name-changes-nothing: err != nil ==> smHas == old(smHas) && closes == old(closes)
   ensures the-pipeline-is-removed-and-closed-exactly-once: let g = gPrev in (err == nil ==> gHad && !pl(ptr(gSpace, "*Namespace"), name) && closes == old(store(closes, g, closes[g] + 1)))
   ensures no-other-pipeline-is-touched: forall sp *Namespace; n string :: allocated(sp) && !(ref(sp) == gSpace && n == name) ==> (pl(sp, n) <==> old(pl(sp, n))) && plVal(sp, n) == old(plVal(sp, n))
@@ -94,6 +98,8 @@ func (tc *TrafficController) CreatePipeline(namespace string, entity *supervisor
   flag allocates
   flag frame=unchecked
   requires tc != nil && tc.namespaces != nil && (forall ns string :: (ns in tc.namespaces) ==> tc.namespaces[ns] != nil) && entity != nil && entity.spec != nil && entity.spec.meta != nil
+  modifies smHas, smVal, smTyp, inits, inherits, inhPrev, closes, gName, gSpace, gHad, gPrev, gPublished, gPublishedBuilt, gBase, entries(tc.namespaces)
+  ensures the-registry-stays-well-formed: old(spacesOK(tc) && gatesOK(tc)) ==> spacesOK(tc) && gatesOK(tc)
   ensures empty-namespace-is-refused-and-changes-nothing: namespace == "" ==> err != nil && smHas == old(smHas) && smVal == old(smVal) && inits == old(inits)
   ensures a-named-namespace-never-refuses: namespace != "" ==> err == nil && res == entity
   ensures initialised-exactly-once: namespace != "" ==> inits == old(store(inits, ref(entity), inits[ref(entity)] + 1)) && inherits == old(inherits) && closes == old(closes)
@@ -112,6 +118,8 @@ func (tc *TrafficController) CreateTrafficGate(namespace string, entity *supervi
   flag allocates
   flag frame=unchecked
   requires tc != nil && tc.namespaces != nil && (forall ns string :: (ns in tc.namespaces) ==> tc.namespaces[ns] != nil) && entity != nil && entity.spec != nil && entity.spec.meta != nil
+  modifies smHas, smVal, smTyp, inits, inherits, inhPrev, closes, gName, gSpace, gHad, gPrev, gPublished, gPublishedBuilt, gBase, entries(tc.namespaces)
+  ensures the-registry-stays-well-formed: old(spacesOK(tc) && gatesOK(tc)) ==> spacesOK(tc) && gatesOK(tc)
   ensures empty-namespace-is-refused-and-changes-nothing: namespace == "" ==> err != nil && smHas == old(smHas) && smVal == old(smVal) && inits == old(inits)
   ensures a-named-namespace-never-refuses: namespace != "" ==> err == nil && res == entity
   ensures initialised-exactly-once: namespace != "" ==> inits == old(store(inits, ref(entity), inits[ref(entity)] + 1)) && inherits == old(inherits) && closes == old(closes)
@@ -125,4 +133,62 @@ func (tc *TrafficController) CreateTrafficGate(namespace string, entity *supervi
   ghost at call Store: gPublishedBuilt := (inits[ifaceVal(value)] == gBase + 1) && ifaceVal(value) == ref(entity)
   ghost at call[1] Name: gName := n
   ghost at call[1] InitWithRecovery: gSpace := ref(space)
+
+// ---- C20 / C11: the update and delete paths of traffic objects (spec changed / name disappeared) ----
+pred tgTyp(sp *Namespace, n string) := smTyp[addr(sp.trafficGates)][typeTag("string")][boxed("string", n)]
+pred gateSpaceOK(sp *Namespace) := sp != nil && (forall n string :: tg(sp, n) ==> tgTyp(sp, n) == typeTag("*supervisor.ObjectEntity") && tgVal(sp, n) != 0 && ptr(tgVal(sp, n), "*supervisor.ObjectEntity").spec != nil && ptr(tgVal(sp, n), "*supervisor.ObjectEntity").spec.meta != nil)
+pred gatesOK(tc *TrafficController) := tc.namespaces != nil && (forall ns string :: (ns in tc.namespaces) ==> gateSpaceOK(tc.namespaces[ns]))
+
+func (tc *TrafficController) UpdatePipeline(namespace string, entity *supervisor.ObjectEntity) (res *supervisor.ObjectEntity, err error)
+  flag allocates
+  flag frame=unchecked
+  requires tc != nil && spacesOK(tc) && entity != nil && entity.spec != nil && entity.spec.meta != nil
+  modifies smHas, smVal, smTyp, inits, inherits, inhPrev, closes, gName, gSpace, gHad, gPrev, gPublished, gPublishedBuilt, gBase, entries(tc.namespaces)
+  ensures the-registry-stays-well-formed: old(spacesOK(tc) && gatesOK(tc)) ==> spacesOK(tc) && gatesOK(tc)
+  ensures a-missing-namespace-or-name-is-refused-and-changes-nothing: err != nil ==> smHas == old(smHas) && smVal == old(smVal) && inits == old(inits) && inherits == old(inherits) && closes == old(closes)
+  ensures refused-exactly-when-the-name-is-not-live: (err != nil) <==> !((namespace in tc.namespaces) && old(pl(tc.namespaces[namespace], entity.spec.meta.Name)))
+  ensures the-new-generation-inherits-once-from-the-live-one-and-replaces-it: let g = gPrev in (err == nil ==> res == entity && gPrev == old(plVal(tc.namespaces[namespace], entity.spec.meta.Name)) && inherits == old(store(inherits, ref(entity), inherits[ref(entity)] + 1)) && inhPrev[ref(entity)] == g && inits == old(inits) && closes == old(closes) && plVal(tc.namespaces[namespace], entity.spec.meta.Name) == ref(entity) && pl(tc.namespaces[namespace], entity.spec.meta.Name))
+  ensures no-other-pipeline-is-touched: forall sp *Namespace; n string :: allocated(sp) && !(ref(sp) == gSpace && n == gName) ==> (pl(sp, n) <==> old(pl(sp, n))) && plVal(sp, n) == old(plVal(sp, n))
+  ensures published-only-after-it-inherited: gPublished ==> gPublishedBuilt
+  ghost at entry: gPublished := false
+  ghost at entry: gBase := inherits[ref(entity)]
+  ghost at call Store: gPublished := true
+  ghost at call Store: gPublishedBuilt := (inherits[ifaceVal(value)] == gBase + 1) && ifaceVal(value) == ref(entity)
+  ghost at call[1] Name: gName := n
+  ghost at call[1] Load: gPrev := ifaceVal(value)
+  ghost at call[1] Load: gSpace := ref(space)
+
+func (tc *TrafficController) UpdateTrafficGate(namespace string, entity *supervisor.ObjectEntity) (res *supervisor.ObjectEntity, err error)
+  flag allocates
+  flag frame=unchecked
+  requires tc != nil && gatesOK(tc) && entity != nil && entity.spec != nil && entity.spec.meta != nil
+  modifies smHas, smVal, smTyp, inits, inherits, inhPrev, closes, gName, gSpace, gHad, gPrev, gPublished, gPublishedBuilt, gBase, entries(tc.namespaces)
+  ensures the-registry-stays-well-formed: old(spacesOK(tc) && gatesOK(tc)) ==> spacesOK(tc) && gatesOK(tc)
+  ensures a-missing-namespace-or-name-is-refused-and-changes-nothing: err != nil ==> smHas == old(smHas) && smVal == old(smVal) && inits == old(inits) && inherits == old(inherits) && closes == old(closes)
+  ensures refused-exactly-when-the-name-is-not-live: (err != nil) <==> !((namespace in tc.namespaces) && old(tg(tc.namespaces[namespace], entity.spec.meta.Name)))
+  ensures the-new-generation-inherits-once-from-the-live-one-and-replaces-it: let g = gPrev in (err == nil ==> res == entity && gPrev == old(tgVal(tc.namespaces[namespace], entity.spec.meta.Name)) && inherits == old(store(inherits, ref(entity), inherits[ref(entity)] + 1)) && inhPrev[ref(entity)] == g && inits == old(inits) && closes == old(closes) && tgVal(tc.namespaces[namespace], entity.spec.meta.Name) == ref(entity) && tg(tc.namespaces[namespace], entity.spec.meta.Name))
+  ensures no-other-traffic-gate-is-touched: forall sp *Namespace; n string :: allocated(sp) && !(ref(sp) == gSpace && n == gName) ==> (tg(sp, n) <==> old(tg(sp, n))) && tgVal(sp, n) == old(tgVal(sp, n))
+  ensures published-only-after-it-inherited: gPublished ==> gPublishedBuilt
+  ghost at entry: gPublished := false
+  ghost at entry: gBase := inherits[ref(entity)]
+  ghost at call Store: gPublished := true
+  ghost at call Store: gPublishedBuilt := (inherits[ifaceVal(value)] == gBase + 1) && ifaceVal(value) == ref(entity)
+  ghost at call[1] Name: gName := n
+  ghost at call[1] Load: gPrev := ifaceVal(value)
+  ghost at call[1] Load: gSpace := ref(space)
+
+func (tc *TrafficController) DeleteTrafficGate(namespace string, name string) (err error)
+  flag allocates
+  flag frame=unchecked
+  requires tc != nil && gatesOK(tc)
+  modifies smHas, smVal, smTyp, inits, inherits, inhPrev, closes, gName, gSpace, gHad, gPrev, gPublished, gPublishedBuilt, gBase, entries(tc.namespaces)
+  ensures the-registry-stays-well-formed: old(spacesOK(tc) && gatesOK(tc)) ==> spacesOK(tc) && gatesOK(tc)
+  ensures missing-namespace-or-name-changes-nothing: err != nil ==> smHas == old(smHas) && closes == old(closes)
+  ensures refused-exactly-when-the-name-is-not-live: (err != nil) <==> !(old(namespace in tc.namespaces) && old(tg(tc.namespaces[namespace], name)))
+  ensures the-traffic-gate-is-removed-and-closed-exactly-once: let g = gPrev in (err == nil ==> gHad && !tg(ptr(gSpace, "*Namespace"), name) && closes == old(store(closes, g, closes[g] + 1)) && inits == old(inits) && inherits == old(inherits))
+  ensures no-other-traffic-gate-is-touched: forall sp *Namespace; n string :: allocated(sp) && !(ref(sp) == gSpace && n == name) ==> (tg(sp, n) <==> old(tg(sp, n))) && tgVal(sp, n) == old(tgVal(sp, n))
+  ghost at entry: gHad := false
+  ghost at call[1] LoadAndDelete: gHad := loaded
+  ghost at call[1] LoadAndDelete: gPrev := ifaceVal(value)
+  ghost at call[1] LoadAndDelete: gSpace := ref(space)
 @*/
